@@ -282,10 +282,20 @@ std::string show_expr(const Expr* e, Floating_Point_Format fmt) {
 
 // ---- random analyser intervals for the abstract store
 template <typename ITV>
-ITV random_box_itv(pplv::Rng& r) {
+ITV random_box_itv(pplv::Rng& r, Floating_Point_Format fmt = IEEE754_SINGLE) {
   typedef typename ITV::boundary_type T;
   T a, b;
-  switch (r.below(8)) {
+  unsigned kind = r.below(10);
+  if (kind >= 8) {
+    // tiny magnitudes: products and quotients fall into the denormal range of the analysed format,
+    // where only the absolute error term covers the rounding error
+    int e = fmt == IEEE754_SINGLE ? -(int)r.range(60, 90) : -(int)r.range(500, 560);
+    a = std::ldexp((T)r.range(1, 9), e); b = std::ldexp((T)r.range(9, 40), e);
+    if (kind == 9) { T t = -a; a = -b; b = t; }
+    if (!(a < b) || a == 0 || b == 0 || std::isinf(a) || std::isinf(b)) { a = (T)1; b = (T)2; }
+    return make_itv<ITV>(a, false, b, false);
+  }
+  switch (kind) {
     case 0: a = (T)r.range(-4, 4); b = a; break;                                            // singleton
     case 1: a = (T)r.range(-100, 0); b = (T)r.range(0, 100); break;                        // straddles zero
     case 2: a = (T)r.range(1, 5) / (T)1024; b = (T)r.range(1000, 100000); break;          // very different magnitudes
@@ -376,7 +386,7 @@ void run_cfg(Floating_Point_Format fmt, char fmt_tag, long seed, long count) {
     unsigned nvars = 1 + rng.below(3);
     H_Oracle<ITV> oracle; oracle.fmt = fmt;
     std::string sbox;
-    for (unsigned i = 0; i < nvars; ++i) { oracle.box.push_back(random_box_itv<ITV>(rng)); sbox += (i ? ";" : "") + show_itv(oracle.box[i]); }
+    for (unsigned i = 0; i < nvars; ++i) { oracle.box.push_back(random_box_itv<ITV>(rng, fmt)); sbox += (i ? ";" : "") + show_itv(oracle.box[i]); }
     const Expr* e = random_expr(rng, pool, ty, nvars, 1 + rng.below(4), false);
     // linear form abstract store: sometimes one variable has a form that is sound for every store in the box
     std::map<dimension_type, LF> lf_store;
